@@ -9,7 +9,7 @@
    oracle on the implementation's output (bin/check C13). *)
 From Coq Require Import List ZArith Lia Bool Arith NArith.
 From Coq.Strings Require Import Byte.
-From Muduo Require Import Gen_Consts Gen_Conn Conn_Model Conn_Proofs Conn_Trace Conn_GenTie.
+From Muduo Require Import Gen_Consts Gen_Conn Conn_Model Conn_Proofs Conn_Trace Conn_Race Conn_GenTie.
 Import ListNotations.
 
 (* ========================================================================================== *)
@@ -209,6 +209,18 @@ Theorem C13_settings_constant : forall c o c' e, step c o = Ok (c', e) ->
   hwm c' = hwm c /\ has_wc c' = has_wc c /\ has_hwm c' = has_hwm c.
 Proof. exact step_const. Qed.
 Print Assumptions C13_settings_constant.
+
+(* the per-step theorems above hold for EVERY state, so they also hold in the racy histories of the
+   x-machine (foreign close requests cut into load / store / hand-off, Properties_C03.C03_xstep_def):
+   a Base step of the x-machine is the step of the base machine on every field the theorems mention *)
+Theorem C13_holds_in_racy_histories : forall x o x' e, xstep x (Base o) = Ok (x', e) ->
+  exists c', step (xbase x) o = Ok (c', e) /\ xreqs x' = xreqs x /\
+    st (xbase x') = st c' /\ outb (xbase x') = outb c' /\ inb (xbase x') = inb c' /\
+    writing (xbase x') = writing c' /\ rd_chan (xbase x') = rd_chan c' /\ hwm (xbase x') = hwm c' /\
+    has_wc (xbase x') = has_wc c' /\ has_hwm (xbase x') = has_hwm c' /\ wire (xbase x') = wire c' /\
+    fin (xbase x') = fin c' /\ pending (xbase x') = pending c' /\ downs (xbase x') = downs c'.
+Proof. exact xstep_base_fields. Qed.
+Print Assumptions C13_holds_in_racy_histories.
 
 (* ========================================================================================== *)
 (* Source: the tests of the current TcpConnection.cc                                            *)
